@@ -156,4 +156,337 @@ theorem readValue_cstr (dec : Dec) (p rest : Bytes) (typid : Int) (hp : (0 : UIn
   simp only [readCString, takeWhile_nonzero p rest hp, pure_eq_ok]
   rw [if_pos (by simp)]
 
+
+/-! ### where the reader lands, and one column -/
+
+theorem chooseAlign_eq (col : Column) (data : Bytes) (offset : Nat) :
+    chooseAlign col data offset =
+      .ok (if col.len = -1 ∧ offset < data.length ∧ data[offset]?.getD 0 ≠ 0 then 1 else colAlign col) := by
+  unfold chooseAlign
+  by_cases h : col.len = -1 ∧ offset < data.length
+  · rw [if_pos h, idx_ok _ _ h.2]
+    simp only [ok_bind, pure_eq_ok]
+    by_cases hb : data[offset] = 0
+    · simp [h, hb]
+    · simp [h, hb]
+  · rw [if_neg h]
+    have : ¬ (col.len = -1 ∧ offset < data.length ∧ data[offset]?.getD 0 ≠ 0) := fun ⟨a, b, _⟩ => h ⟨a, b⟩
+    rw [if_neg this]; rfl
+
+theorem varlenaVal_nonempty (dec : Dec) (val : Bytes) (typid : Int) (h : 0 < val.length) :
+    varlenaVal dec val typid = dec val typid := by
+  unfold varlenaVal
+  rw [if_neg (by omega)]
+
+/-- a model column describes the same layout as a spec column -/
+def ColMatch (i : Nat) (mc : Column) (c : Col) : Prop :=
+  mc.name = c.name ∧ mc.typid = c.typid ∧ mc.len = c.len ∧ (mc.num = 0 ∨ mc.num = (i : Int) + 1) ∧ colAlign mc = c.align
+
+def ColsMatch : Nat → List Column → List Col → Prop
+  | _, [], [] => True
+  | i, mc :: ms, c :: cs => ColMatch i mc c ∧ ColsMatch (i + 1) ms cs
+  | _, _, _ => False
+
+theorem getD_at_prefix (pre X : Bytes) : (pre ++ X)[pre.length]?.getD 0 = X.headD 0 := by
+  rw [List.getElem?_append_right (Nat.le_refl _), Nat.sub_self]
+  cases X <;> rfl
+
+/-- one stored column: the alignment chosen, what is read, and where the reader continues -/
+theorem step (dec : Dec) (mc : Column) (c : Col) (d : Datum) (hl : mc.len = c.len) (ht : mc.typid = c.typid)
+    (hal : colAlign mc = c.align) (ha : Pow2Align c.align) (hd : d.WF c) (pre rest : Bytes) :
+    ∃ a n, chooseAlign mc (pre ++ (formDatum c pre.length d ++ rest)) pre.length = .ok a ∧
+      readValue dec (pre ++ (formDatum c pre.length d ++ rest)) (Model.align pre.length a) mc.typid mc.len
+        = (expectedVal (varlenaVal dec) c d >>= fun v => pure (v, n)) ∧
+      Model.align pre.length a + n = pre.length + (formDatum c pre.length d).length := by
+  have hpos : 0 < c.align := by rcases ha with h | h | h | h <;> omega
+  have hge := alignUp_ge pre.length c.align hpos
+  have hpadlen : (pre ++ pad pre.length c.align).length = alignUp pre.length c.align := by
+    simp only [List.length_append, pad_length]; omega
+  rw [chooseAlign_eq, hl, ht, hal]
+  cases d with
+  | fixed bs =>
+    obtain ⟨hp, hlen⟩ := hd
+    refine ⟨_, bs.length, rfl, ?_, ?_⟩
+    · rw [if_neg (by intro ⟨h, _⟩; omega), align_eq_alignUp _ _ ha, ← hpadlen]
+      have : pre ++ (formDatum c pre.length (.fixed bs) ++ rest) = (pre ++ pad pre.length c.align) ++ (bs ++ rest) := by
+        simp [formDatum]
+      rw [this, readValue_shift, readValue_fixed dec bs rest c.typid c.len hp hlen]
+      simp only [expectedVal]
+      rw [varlenaVal_nonempty dec bs c.typid (by omega)]
+    · rw [if_neg (by intro ⟨h, _⟩; omega), align_eq_alignUp _ _ ha]
+      simp only [formDatum, List.length_append, pad_length]; omega
+  | short p =>
+    obtain ⟨hlen, hp⟩ := hd
+    have hb := shortHdr_toNat p.length hp
+    have hnz : UInt8.ofNat (2 * (p.length + 1) + 1) ≠ 0 := by
+      intro h; have := congrArg UInt8.toNat h; rw [hb] at this; simp at this
+    have hc : c.len = -1 ∧ pre.length < (pre ++ (formDatum c pre.length (.short p) ++ rest)).length ∧
+        (pre ++ (formDatum c pre.length (.short p) ++ rest))[pre.length]?.getD 0 ≠ 0 := by
+      refine ⟨hlen, by simp [formDatum], ?_⟩
+      rw [getD_at_prefix]; simpa [formDatum] using hnz
+    refine ⟨_, p.length + 1, rfl, ?_, ?_⟩
+    · rw [if_pos hc]
+      have : Model.align pre.length 1 = pre.length := by simp [Model.align]
+      rw [this, readValue_shift, hlen]
+      simp only [formDatum, List.cons_append]
+      rw [readValue_varlena _ _ _ (by simp), readVarlena_short p rest hp]
+      simp only [ok_bind, expectedVal]
+    · rw [if_pos hc]; simp [Model.align, formDatum]
+  | external body =>
+    obtain ⟨hlen, hb⟩ := hd
+    have hc : c.len = -1 ∧ pre.length < (pre ++ (formDatum c pre.length (.external body) ++ rest)).length ∧
+        (pre ++ (formDatum c pre.length (.external body) ++ rest))[pre.length]?.getD 0 ≠ 0 := by
+      refine ⟨hlen, by simp [formDatum], ?_⟩
+      rw [getD_at_prefix]; simp [formDatum]
+    refine ⟨_, 18, rfl, ?_, ?_⟩
+    · rw [if_pos hc]
+      have : Model.align pre.length 1 = pre.length := by simp [Model.align]
+      rw [this, readValue_shift, hlen]
+      simp only [formDatum, List.cons_append]
+      rw [readValue_varlena _ _ _ (by simp), readVarlena_ext body rest hb]
+      simp only [ok_bind, expectedVal, pure_eq_ok]
+      rfl
+    · rw [if_pos hc]; simp [Model.align, formDatum, hb]
+  | cstr p =>
+    obtain ⟨hlen, hal1, hp⟩ := hd
+    refine ⟨_, p.length + 1, rfl, ?_, ?_⟩
+    · rw [if_neg (by intro ⟨h, _⟩; omega), hal1]
+      have : Model.align pre.length 1 = pre.length := by simp [Model.align]
+      rw [this, readValue_shift, hlen]
+      have : formDatum c pre.length (.cstr p) ++ rest = p ++ 0 :: rest := by simp [formDatum]
+      rw [this, readValue_cstr dec p rest c.typid hp]
+      simp only [expectedVal, pure_eq_ok, ok_bind]
+    · rw [if_neg (by intro ⟨h, _⟩; omega), hal1]; simp [Model.align, formDatum]
+  | long p =>
+    obtain ⟨hlen, hp⟩ := hd
+    have hland : Model.align pre.length
+        (if c.len = -1 ∧ pre.length < (pre ++ (formDatum c pre.length (.long p) ++ rest)).length ∧
+          (pre ++ (formDatum c pre.length (.long p) ++ rest))[pre.length]?.getD 0 ≠ 0 then 1 else c.align)
+        = alignUp pre.length c.align := by
+      by_cases hpad : alignUp pre.length c.align = pre.length
+      · split
+        · simp [Model.align, hpad]
+        · rw [align_eq_alignUp _ _ ha]
+      · have hz : (pre ++ (formDatum c pre.length (.long p) ++ rest))[pre.length]?.getD 0 = 0 := by
+          rw [getD_at_prefix]
+          have : 0 < alignUp pre.length c.align - pre.length := by omega
+          simp only [formDatum, pad, zeros]
+          generalize alignUp pre.length c.align - pre.length = k at this
+          cases k with
+          | zero => omega
+          | succ k => simp [List.replicate_succ]
+        rw [if_neg (by intro ⟨_, _, h⟩; exact h hz), align_eq_alignUp _ _ ha]
+    refine ⟨_, p.length + 4, rfl, ?_, ?_⟩
+    · rw [hland, ← hpadlen]
+      have : pre ++ (formDatum c pre.length (.long p) ++ rest)
+          = (pre ++ pad pre.length c.align) ++ (le 4 ((p.length + 4) * 4) ++ (p ++ rest)) := by simp [formDatum]
+      rw [this, readValue_shift, hlen, readValue_varlena _ _ _ (by simp; omega),
+        readVarlena_long _ p rest (Or.inl rfl) hp]
+      simp only [ok_bind, expectedVal]
+    · rw [hland]; simp only [formDatum, List.length_append, pad_length, le_length]; omega
+  | compressed raw =>
+    obtain ⟨hlen, h4, hp⟩ := hd
+    have hland : Model.align pre.length
+        (if c.len = -1 ∧ pre.length < (pre ++ (formDatum c pre.length (.compressed raw) ++ rest)).length ∧
+          (pre ++ (formDatum c pre.length (.compressed raw) ++ rest))[pre.length]?.getD 0 ≠ 0 then 1 else c.align)
+        = alignUp pre.length c.align := by
+      by_cases hpad : alignUp pre.length c.align = pre.length
+      · split
+        · simp [Model.align, hpad]
+        · rw [align_eq_alignUp _ _ ha]
+      · have hz : (pre ++ (formDatum c pre.length (.compressed raw) ++ rest))[pre.length]?.getD 0 = 0 := by
+          rw [getD_at_prefix]
+          have : 0 < alignUp pre.length c.align - pre.length := by omega
+          simp only [formDatum, pad, zeros]
+          generalize alignUp pre.length c.align - pre.length = k at this
+          cases k with
+          | zero => omega
+          | succ k => simp [List.replicate_succ]
+        rw [if_neg (by intro ⟨_, _, h⟩; exact h hz), align_eq_alignUp _ _ ha]
+    refine ⟨_, raw.length + 4, rfl, ?_, ?_⟩
+    · rw [hland, ← hpadlen]
+      have : pre ++ (formDatum c pre.length (.compressed raw) ++ rest)
+          = (pre ++ pad pre.length c.align) ++ (le 4 ((raw.length + 4) * 4 + 2) ++ (raw ++ rest)) := by simp [formDatum]
+      rw [this, readValue_shift, hlen, readValue_varlena _ _ _ (by simp; omega),
+        readVarlena_long _ raw rest (Or.inr rfl) hp]
+      simp only [ok_bind, expectedVal]
+    · rw [hland]; simp only [formDatum, List.length_append, pad_length, le_length]; omega
+
+
+/-! ### the null bitmap -/
+
+theorem bits8_lt (x0 x1 x2 x3 x4 x5 x6 x7 : Bool) : bits8 x0 x1 x2 x3 x4 x5 x6 x7 < 256 := by
+  cases x0 <;> cases x1 <;> cases x2 <;> cases x3 <;> cases x4 <;> cases x5 <;> cases x6 <;> cases x7 <;> decide
+
+theorem bits8_test (x0 x1 x2 x3 x4 x5 x6 x7 : Bool) (b : Nat) (hb : b < 8) :
+    (bits8 x0 x1 x2 x3 x4 x5 x6 x7 &&& (1 <<< b) == 0) = !([x0, x1, x2, x3, x4, x5, x6, x7].getD b false) := by
+  have : b = 0 ∨ b = 1 ∨ b = 2 ∨ b = 3 ∨ b = 4 ∨ b = 5 ∨ b = 6 ∨ b = 7 := by omega
+  rcases this with h | h | h | h | h | h | h | h <;> subst h <;>
+    cases x0 <;> cases x1 <;> cases x2 <;> cases x3 <;> cases x4 <;> cases x5 <;> cases x6 <;> cases x7 <;> rfl
+
+theorem bitmapByte_test (bits : List Bool) (j b : Nat) (hb : b < 8) :
+    (bitmapByte bits j &&& (1 <<< b) == 0) = !(bits.getD (8 * j + b) false) := by
+  unfold bitmapByte
+  simp only []
+  rw [bits8_test _ _ _ _ _ _ _ _ b hb]
+  have : b = 0 ∨ b = 1 ∨ b = 2 ∨ b = 3 ∨ b = 4 ∨ b = 5 ∨ b = 6 ∨ b = 7 := by omega
+  rcases this with h | h | h | h | h | h | h | h <;> subst h <;> rfl
+
+/-- IsNull on PostgreSQL's bitmap: attribute i+1 is NULL iff its bit is clear; attributes beyond the bitmap
+(or in the unused bits of its last byte) are NULL -/
+theorem isNull_enc (hdr : TupleHeader) (data : Bytes) (bits : List Bool) (i : Nat) :
+    HeapTuple.isNull ⟨hdr, some (encBitmap bits), data⟩ ((i : Int) + 1) = !(bits.getD i false) := by
+  unfold HeapTuple.isNull
+  simp only []
+  rw [if_neg (by omega)]
+  have hk : ((i : Int) + 1 - 1).toNat = i := by omega
+  simp only [hk]
+  unfold encBitmap
+  rw [List.getElem?_map, List.getElem?_range']
+  by_cases hj : i / 8 < (bits.length + 7) / 8
+  · simp only [hj, if_true, Option.map_some]
+    have hlt : bitmapByte bits (i / 8) < 256 := by unfold bitmapByte; exact bits8_lt ..
+    have hto : (UInt8.ofNat (bitmapByte bits (i / 8))).toNat = bitmapByte bits (i / 8) := by
+      simp [UInt8.toNat_ofNat']; omega
+    rw [hto, bitmapByte_test bits (i / 8) (i % 8) (Nat.mod_lt _ (by decide))]
+    have : 8 * (i / 8) + i % 8 = i := Nat.div_add_mod i 8
+    rw [this]
+  · simp only [hj, if_false, Option.map_none]
+    have : bits.length ≤ i := by omega
+    simp [List.getD, List.getElem?_eq_none this]
+
+theorem isNull_nobitmap (hdr : TupleHeader) (data : Bytes) (n : Int) :
+    HeapTuple.isNull ⟨hdr, none, data⟩ n = false := rfl
+
+/-! ### columns beyond the stored data -/
+
+theorem readValue_beyond (dec : Dec) (data : Bytes) (off : Nat) (typid len : Int) (h : data.length ≤ off) :
+    readValue dec data off typid len = .ok (.nil, 0) := by
+  unfold readValue; rw [if_pos h]; rfl
+
+/-- once the offset has reached the end of the data every further column reads as NULL -/
+theorem decodeCols_tail (dec : Dec) (t : HeapTuple) (mcols : List Column) (i offset : Nat)
+    (h : t.data.length ≤ offset) :
+    decodeCols dec t mcols i offset = .ok (mcols.map fun c => (c.name, GoVal.nil)) := by
+  induction mcols generalizing i offset with
+  | nil => rfl
+  | cons col cs ih =>
+    simp only [decodeCols]
+    split
+    · rw [ih (i + 1) offset h]; rfl
+    · rw [chooseAlign_eq, if_neg (by intro ⟨_, h2, _⟩; omega)]
+      simp only [ok_bind]
+      have hge := align_ge offset (colAlign col)
+      rw [readValue_beyond dec t.data _ _ _ (by omega)]
+      simp only [ok_bind]
+      rw [ih (i + 1) _ (by omega)]; rfl
+
+theorem expectedCols_zero (val : Bytes → Int → M GoVal) (cols : List Col) (vals : List (Option Datum))
+    (h : vals.length = cols.length) :
+    expectedCols val cols vals 0 = .ok (cols.map fun c => (c.name, GoVal.nil)) := by
+  induction cols generalizing vals with
+  | nil => cases vals <;> rfl
+  | cons c cs ih =>
+    cases vals with
+    | nil => simp at h
+    | cons v vs =>
+      simp only [expectedCols]
+      rw [ih vs (by simpa using h)]
+      cases v <;> rfl
+
+theorem colsMatch_names : ∀ (i : Nat) (mcols : List Column) (cols : List Col), ColsMatch i mcols cols →
+    mcols.map (fun c => (c.name, GoVal.nil)) = cols.map (fun c => (c.name, GoVal.nil))
+  | _, [], [], _ => rfl
+  | i, mc :: ms, c :: cs, h => by
+    simp only [List.map_cons]
+    rw [h.1.1, colsMatch_names (i + 1) ms cs h.2]
+  | _, [], _ :: _, h => h.elim
+  | _, _ :: _, [], h => h.elim
+
+/-! ### the row layout theorem, general form -/
+
+/-- Invariant form: after the reader has consumed `pre`, with `k` stored attributes still to come, the
+column loop returns what the spec expects.  `nullAt` abstracts the tuple's IsNull. -/
+theorem decodeCols_form (dec : Dec) (t : HeapTuple) (nullAt : Nat → Bool)
+    (hnull : ∀ i : Nat, t.isNull ((i : Int) + 1) = nullAt i) :
+    ∀ (cols : List Col) (mcols : List Column) (vals : List (Option Datum)) (i k : Nat) (pre : Bytes),
+      ColsMatch i mcols cols → vals.length = cols.length →
+      (∀ p ∈ cols.zip vals, Pow2Align p.1.align ∧ ∀ d, p.2 = some d → d.WF p.1) →
+      (∀ j, j < k → j < vals.length → nullAt (i + j) = (vals.getD j none).isNone) →
+      t.data = pre ++ form (cols.take k) (vals.take k) pre.length →
+      decodeCols dec t mcols i pre.length = expectedCols (varlenaVal dec) cols vals k := by
+  intro cols
+  induction cols with
+  | nil =>
+    intro mcols vals i k pre hm hlen _ _ _
+    cases mcols with
+    | nil => cases vals <;> rfl
+    | cons _ _ => exact hm.elim
+  | cons c cs ih =>
+    intro mcols vals i k pre hm hlen hwf hn hdata
+    cases mcols with
+    | nil => exact hm.elim
+    | cons mc ms =>
+    cases vals with
+    | nil => simp at hlen
+    | cons v vs =>
+    have hlen' : vs.length = cs.length := by simpa using hlen
+    have hwf' : ∀ p ∈ cs.zip vs, Pow2Align p.1.align ∧ ∀ d, p.2 = some d → d.WF p.1 :=
+      fun p hp => hwf p (by simp [List.zip_cons_cons, hp])
+    obtain ⟨⟨hname, htyp, hl, hnum, hal⟩, hms⟩ := hm
+    cases k with
+    | zero =>
+      -- nothing stored any more: the offset is at the end of the data
+      have hend : t.data.length ≤ pre.length := by rw [hdata]; simp [form]
+      rw [decodeCols_tail dec t _ i pre.length hend, expectedCols_zero _ _ _ hlen]
+      have := colsMatch_names i (mc :: ms) (c :: cs) ⟨⟨hname, htyp, hl, hnum, hal⟩, hms⟩
+      rw [this]
+    | succ k =>
+      have hnumv : (if mc.num = 0 then (i : Int) + 1 else mc.num) = (i : Int) + 1 := by
+        rcases hnum with h | h
+        · rw [if_pos h]
+        · by_cases h0 : mc.num = 0
+          · rw [if_pos h0]
+          · rw [if_neg h0, h]
+      have hn0 := hn 0 (by omega) (by simp)
+      have hn' : ∀ j, j < k → j < vs.length → nullAt (i + 1 + j) = (vs.getD j none).isNone := by
+        intro j hj hjl
+        have := hn (j + 1) (by omega) (by simp; omega)
+        simpa [Nat.add_assoc, Nat.add_comm 1 j] using this
+      simp only [decodeCols, hnumv, hnull]
+      cases v with
+      | none =>
+        have h1 : nullAt i = true := by simpa using hn0
+        simp only [Nat.add_zero] at h1
+        rw [if_pos h1]
+        have hdata' : t.data = pre ++ form (cs.take k) (vs.take k) pre.length := by
+          rw [hdata]; simp [form]
+        rw [ih ms vs (i + 1) k pre hms hlen' hwf' hn' hdata']
+        simp only [expectedCols, hname]
+        rfl
+      | some d =>
+        have h1 : nullAt i = false := by simpa using hn0
+        rw [if_neg (by simp [h1])]
+        obtain ⟨hpa, hdw⟩ := hwf (c, some d) (by simp [List.zip_cons_cons])
+        have hdata1 : t.data = pre ++ (formDatum c pre.length d ++
+            form (cs.take k) (vs.take k) (pre.length + (formDatum c pre.length d).length)) := by
+          rw [hdata]; simp [form]
+        obtain ⟨a, n, hca, hrv, hoff⟩ := step dec mc c d hl htyp hal hpa (hdw d rfl) pre
+          (form (cs.take k) (vs.take k) (pre.length + (formDatum c pre.length d).length))
+        rw [← hdata1] at hca hrv
+        rw [hca]
+        simp only [ok_bind]
+        rw [hrv]
+        have hdata' : t.data = (pre ++ formDatum c pre.length d) ++
+            form (cs.take k) (vs.take k) (pre ++ formDatum c pre.length d).length := by
+          rw [hdata1]; simp [List.append_assoc]
+        have hrec := ih ms vs (i + 1) k (pre ++ formDatum c pre.length d) hms hlen' hwf' hn' hdata'
+        simp only [List.length_append] at hrec
+        simp only [expectedCols, Nat.add_sub_cancel, hname]
+        cases hx : expectedVal (varlenaVal dec) c d with
+        | error e => rfl
+        | ok x =>
+          simp only [ok_bind, pure_eq_ok]
+          rw [hoff, hrec]
+
 end PgVerif.Proofs.Rows
